@@ -1,3 +1,4 @@
+import sys
 #!/usr/bin/env python3
 """Regenerate MANIFEST.json from tools/manifest_src.py (single source of truth for claims)."""
 import json, os, sys
@@ -33,7 +34,17 @@ m = {
     ],
     "checks": checks,
     "not_applicable": [{"property_id": k, "reason": v} for k, v in sorted(NOT_APPLICABLE.items())],
-    "notes": "Technique family: static analysis only. Each check decides named structural clauses (necessary conditions) of its property for all inputs from /repo's current source; value-level remainders are listed under assumptions in the evidence. exit 2 + INCONCLUSIVE (no VIOLATION line) when an anchor or idiom is no longer recognised.",
+    "notes": "Technique family: static analysis only. Each check decides named structural clauses (necessary conditions) of its property for all inputs from /repo's current source; value-level remainders are listed under assumptions in the evidence. exit 0 = no rule has a witness against the property; exit 1 + VIOLATION = a witness fact; INCONCLUSIVE lines (never a VIOLATION line) when a rule no longer recognises its code: exit 2 on the confirmed tree (analyses/confirmed_tree.json) and for failures of the machinery itself, exit 0 on a changed tree unless --strict (DESIGN.md 9.7).",
 }
 json.dump(m, open(os.path.join(VERIF, "MANIFEST.json"), "w"), indent=1)
+# the tree the rule instances are confirmed on: refresh after every fix commit in /repo (and a full green run)
+import subprocess
+sys.path.insert(0, os.path.join(VERIF, "analyses"))
+import extract
+head = subprocess.run(["git", "-C", "/repo", "rev-parse", "--short", "HEAD"], stdout=subprocess.PIPE).stdout.decode().strip()
+dirty = subprocess.run(["git", "-C", "/repo", "status", "--porcelain"], stdout=subprocess.PIPE).stdout.decode().strip()
+if not dirty:
+    json.dump({"src_hash": extract.src_hash("/repo"), "repo_head": head,
+               "note": "sources on which every rule instance and floor was confirmed; on this tree an undecided rule is a failure of the machinery (exit 2)"},
+              open(os.path.join(VERIF, "analyses", "confirmed_tree.json"), "w"), indent=1)
 print("wrote MANIFEST.json with", len(checks), "checks,", len(m["not_applicable"]), "not applicable")
